@@ -142,7 +142,7 @@ def _execute(program, stats, hist):
             hist.add(op=name)
             continue
         if name == "aborted_quote":
-            class _Fault(Exception):
+            class _Fault(RuntimeError):  # what torch itself raises on a shape or dtype error
                 pass
             calls = [0]
 
